@@ -23,6 +23,15 @@ def history(g, rng, depth):
             g.request(outcome="200")
         elif k < 0.5:
             g.eject(dur=rng.choice([SEC, 2 * SEC]))
+        elif k < 0.58 and g.names:
+            # the candidate set changes but keeps its size: one backend out, one in, nothing in between
+            # (a different name, or the same name again — a new backend object either way)
+            victim = rng.choice(g.names)
+            g.remove(victim)
+            if rng.random() < 0.5:
+                g.add(w=rng.choice([1, 2, 3, 6]), name=victim)
+            else:
+                g.add(w=rng.choice([1, 2, 3, 6]))
         elif k < 0.65 and len(g.names) > 1:
             g.remove(rng.choice(g.names))
         elif k < 0.8:
@@ -50,7 +59,12 @@ def gen_episode(rng, strat=None, weights=None, depth=None, long=False):
                 g.begin()
         for _ in range(rng.randint(5, 40)):
             k = rng.random()
-            if k < 0.6 or not g.infl:
+            if k < 0.08:
+                # an admin switches the strategy away and back while requests are in flight: the
+                # in-flight numbers the minimum is taken over are the real ones
+                g.ops.append("lb strategy %s" % rng.choice(["round_robin", "ip_hash", "least_connections"]))
+                g.ops.append("lb strategy least_connections")
+            elif k < 0.6 or not g.infl:
                 g.begin()
             else:
                 g.end(outcome="200")
@@ -61,6 +75,10 @@ def gen_episode(rng, strat=None, weights=None, depth=None, long=False):
             if rng.random() < 0.02:
                 g.eject(dur=SEC)          # a flap in the middle: the run restarts
                 g.advance(SEC + 1)
+            elif rng.random() < 0.02 and g.names:
+                victim = rng.choice(g.names)          # same-size swap in the middle of the run
+                g.remove(victim)
+                g.add(w=rng.choice([1, 2, 3, 6]), name=victim if rng.random() < 0.5 else None)
     return g.finish()
 
 
@@ -157,13 +175,13 @@ def oracle(ep, outs, known=None):
             if sh.strategy == "least_connections" and elig and o == "resp 503":
                 fails.append("least_connections: nothing chosen (503) with in-flight counts %s among the eligible backends (%s)" % (
                     sorted(x.inflight for x in elig), line))
+        if w[1] in ("add", "remove", "strategy"):
+            close_run()          # judged against the pool the run was made over, before it changes
+            run_set = None
         info = sh.apply(line, o)
         if w[1] == "begin":
             if info.get("served"):
                 run.append(info["served"])
-        elif w[1] in ("add", "remove", "strategy"):
-            close_run()
-            run_set = None
     close_run()
     return fails
 
